@@ -1068,6 +1068,32 @@ def _release(I, self, args, kw, fr, site):
     return NONE
 
 
+@intrinsic("Condition.wait")
+def _cond_wait(I, self, args, kw, fr, site):
+    timeout = args[0] if args else kw.get("timeout", NONE)
+    I.st.events.append(("cond.wait", self, timeout))
+    I.E.on_wait(I, self, timeout, fr, site)
+    return VBool(I.st.fresh_bool("cond_wait"))
+
+
+@intrinsic("Condition.notify_all", "Condition.notifyAll", "Condition.notify")
+def _cond_notify(I, self, args, kw, fr, site):
+    I.st.events.append(("cond.notify", self))
+    return NONE
+
+
+@intrinsic("Condition.acquire", "Condition.__enter__")
+def _cond_acquire(I, self, args, kw, fr, site):
+    I.E.on_acquire(I, self, fr, site)
+    return VBool(True)
+
+
+@intrinsic("Condition.release", "Condition.__exit__")
+def _cond_release(I, self, args, kw, fr, site):
+    I.E.on_release(I, self, fr, site)
+    return NONE
+
+
 @intrinsic("Event.set")
 def _ev_set(I, self, args, kw, fr, site):
     I.st.events.append(("event.set", self))
